@@ -51,9 +51,10 @@ Theorem C19_gun_total : forall c r,
 Proof. exact base_shoot_total. Qed.
 Print Assumptions C19_gun_total.
 
-(* the only panic leaves of Shoot: a gun that was never bound, or the documented-fatal HTTP/2 condition *)
+(* the only panic leaves of Shoot: a gun that was never bound, or the documented-fatal HTTP/2 condition
+   (http2 gun, target reached, no HTTP/2 negotiated); any other connection failure of an http2 gun is a sample *)
 Theorem C19_gun_panic_only_documented : forall c inv r l, base_shoot c inv r = ShotPanic l ->
-  bc_bound c = false \/ (bc_http2 c = true /\ rs_h2 r = false).
+  bc_bound c = false \/ (bc_http2 c = true /\ rs_h2 r = false /\ conn_ok (rs_conn r) = true).
 Proof. exact base_shoot_panic_only. Qed.
 Print Assumptions C19_gun_panic_only_documented.
 
